@@ -227,7 +227,7 @@ int main (int argc, char **argv)
 	  else good = !r.raised && bcmp (val (r.u, r.sign), exp) == 0;
 	  if (!good)
 	    {
-	      if (bad++ < 40)
+	      if (bad++ < 400000)
 		{
 		  printf ("MISMATCH "); show (op, au, as, bu, bs);
 		  if (r.raised) printf (" got=raise"); else printf (" got=%lu/%d", r.u, (int) r.sign);
